@@ -1,8 +1,9 @@
 import VlsModel.Drv.Common
-/- Line-protocol models serving property C08 (none yet). -/
+import VlsModel.Drv.Onchain
+/- Line-protocol models serving property C08. -/
 namespace VlsModel.Drv.C08
 open VlsModel.Drv
 
-def models : List (String × Model) := []
+def models : List (String × Model) := [ ("onchain", Onchain.model) ]
 
 end VlsModel.Drv.C08
